@@ -20,6 +20,11 @@ CLAIMS = {
    text="Decides the static ingredients of the stack-limit property on every path of the code: the backtracking stack is allocated only in two functions and every allocation length is provably clamped by the limit (R-LIM1); the limit value influences nothing but sizes, bounds, branch conditions and growTrack's bool, and growth keeps end-relative positions (R-LIM2); every capacity/jump error is propagated unchanged and the sentinel has one producer (R-LIM3); no clause pushes more than the reserve multiplier K and every emitFragment path pays for what it can push (R-LIM4). It does NOT prove the runtime invariant that the reserve suffices between two capacity checks, nor result equality with the limit disabled.",
    note="Trusted: go/ssa construction; K is read from ensureStorage; loops in clauses are enumerated as 0/1 iterations.",
    ref="DESIGN.md §4 C13"),
+ "C12": dict(
+   technique="static analysis: interprocedural must-write / may-read-before-write dataflow on go/ssa over the pooled Runner and its Match (call graph for func-valued fields), plus pairing/ordering checks on the pool return path",
+   text="Decides that no field of the recycled interpreter state (every field of Runner, and of the Match it owns) can be read before the current call has written it, on any path from (*Runner).scan through all reachable callees (R-STALE; persistent-by-design fields are a frozen table with reasons, some of which are themselves checked), that putRunner restores the full program, that a handed-out Match is detached, that pooled buffers are re-sliced to the decoded length and that the replacement cache is per-Regexp and keyed by the whole replacement (R-RESTORE/DETACH/BUFLEN/CACHEKEY). A stale read is how history leaks into a result, so this is a necessary condition of C12; equality with a freshly compiled Regexp as such is NOT decided (slice contents beyond the position markers are argued dead, not analysed).",
+   note="Trusted: go/ssa + VTA resolution of the three func-valued fields; element-level contents of the stacks and capture arrays are outside the analysis; error-return correlation is modelled only for `if err != nil` directly on a call result.",
+   ref="DESIGN.md §4 C12"),
 }
 
 NOT_APPLICABLE = {
